@@ -26,6 +26,15 @@
       (Det.Refs: the pinned loop is invariant, and equal to the simultaneous substitution, exactly when the
        reference strings are separated; otherwise two set orders give two argument strings: finding F15b)
 
+   S7 flowir.py FlowIR.apply_replicate -> compile_component_aggregate: one search/replace pass per replicated
+      reference `for ref in refs_to_replicate` (absolute spelling, else the relative one): the collection is a
+      LIST in the order of the `references` field of the document (no oracle)   -> [Det.Aggregate.aggregate_list];
+      what a set would do -> [Det.Aggregate.aggregate_set piS] (order independent exactly under separation)
+
+   Process state.  A process performs SEVERAL loads one after the other ([session]); every load reads the files
+   as they are on disk at that time and its result is a function of (contents, list given) only: nothing a
+   previous load did is visible to a later one ([layer_many] = layer_many_variable_files on the list as given).
+
    Dictionaries are association lists (V.Lib.JTree.jv); a YAML document never has a repeated key
    ([wfk]). *)
 From Coq Require Import String Ascii List Bool Arith ZArith Permutation.
@@ -46,7 +55,8 @@ Definition oracle_sites : list string :=
     "S3 graph.ComponentSpecification._memoization_info_to_hash: sorted(obj)";
     "S4 dsl.ComponentFlowIR.convert_outputreferences_to_datareferences: sorted(parameters_legacy.union(arguments_legacy))";
     "S4 dsl.namespace_to_flowir.hash_environment: sorted(environment)";
-    "S5 dsl.ComponentFlowIR.convert_outputreferences_to_datareferences: sorted(parameters_output.union(arguments_output))" ].
+    "S5 dsl.ComponentFlowIR.convert_outputreferences_to_datareferences: sorted(parameters_output.union(arguments_output))";
+    "S7 flowir.FlowIR.apply_replicate: replicated_refs is an ordered list, iterated by compile_component_aggregate / compile_component_replica" ].
 (* S6 (no oracle, not in the list): dsl.py namespace_to_flowir names components and environments while
    iterating dictionaries whose insertion order is a function of the document: [dsl_names], [env_names] *)
 
@@ -128,6 +138,15 @@ Definition layer_variable_files (piF : oracle string) (piK : oracle (string * jv
 (* repaired code *)
 Definition load_variables (piK : oracle (string * jv)) (read : string -> jv) (files : list string) : option jv :=
   layer_pi piK (map read (dedup_last files)).
+
+(* layer_many_variable_files called directly: the list as given, no de-duplication *)
+Definition layer_many (piK : oracle (string * jv)) (read : string -> jv) (files : list string) : option jv :=
+  layer_pi piK (map read files).
+
+(* one process, several loads one after the other: load i finds the contents read_i on disk and is given files_i.
+   The code that exists keeps nothing between two loads (every file is parsed again, into fresh dictionaries). *)
+Definition session (piK : oracle (string * jv)) (loads : list ((string -> jv) * list string)) : list (option jv) :=
+  map (fun l => load_variables piK (fst l) (snd l)) loads.
 
 (* the documented result: the value of the LAST document that defines the path *)
 Fixpoint last_def_from (p : list string) (acc : option jv) (docs : list jv) : option jv :=
@@ -454,6 +473,24 @@ Definition check_case
                          | None => false
                          end) stages
   end.
+
+(* layer case = ((file table, files as given), result of layer_many_variable_files on that list (None: it raised)) *)
+Definition check_layer (c : (list (string * jv) * list string) * option jv) : bool :=
+  let '((tbl, files), impl) := c in
+  opt_jv_eqb (layer_many id_oracle (read_of tbl) files) impl &&
+  opt_jv_eqb (layer_many (@rev _) (read_of tbl) files) impl.
+
+(* session case = (loads of one process in the order performed: (file table at that time, files given),
+                   user variables reported after each load) *)
+Fixpoint opts_eqb (a b : list (option jv)) : bool :=
+  match a, b with
+  | [], [] => true
+  | x :: r, y :: s => opt_jv_eqb x y && opts_eqb r s
+  | _, _ => false
+  end.
+Definition check_session (c : list (list (string * jv) * list string) * list (option jv)) : bool :=
+  let loads := map (fun l => (read_of (fst l), snd l)) (fst c) in
+  opts_eqb (session id_oracle loads) (snd c) && opts_eqb (session (@rev _) loads) (snd c).
 
 (* ser case = (dictionary, buffer the implementation handed to md5 (None: it raised)) *)
 Definition opt_str_eqb (a b : option string) : bool :=
